@@ -199,6 +199,9 @@ fn run_both(cx: &Cx, c20: bool) -> Acc {
         }
     }));
     acc.merge(crate::props::stream::run_for_c12_c20(cx, c20));
+    if !c20 {
+        acc.merge(crate::sched::run_for_c12(cx));
+    }
     acc
 }
 
@@ -218,6 +221,10 @@ fn replay_both(cx: &Cx, phase: &str, case: &Value, acc: &mut Acc, c20: bool) -> 
     match phase {
         "serve" => check_serve(&serde_json::from_value(case.clone()).map_err(dec)?, acc, c20),
         "fault-enumeration" | "fault-random" => check_fault(&serde_json::from_value(case.clone()).map_err(dec)?, acc, c20),
+        "sched-sampled" => {
+            let c: crate::sched::SchedCase = serde_json::from_value(case.clone()).map_err(dec)?;
+            crate::sched::check_c12(&c, acc).0
+        }
         "body-from" => check_from(case["len"].as_u64().unwrap_or(0) as usize, case["kind"].as_u64().unwrap_or(0) as usize, acc, c20),
         _ => crate::props::stream::replay_for_c12_c20(cx, phase, case, acc, c20),
     }
